@@ -435,6 +435,8 @@ func (h *History) Step(o Op) {
 		if !h.quiesce() {
 			fail("stuck: no quiescence")
 		}
+	case "mark": // a marker line (e.g. "drained": the generator has acknowledged everything it could)
+		h.quiesce()
 	case "stall":
 		if c != nil {
 			c.stalled = o.Kind != "off"
@@ -478,6 +480,25 @@ func (h *History) Step(o Op) {
 func Run(cfg Config, ops []Op) []Event {
 	h := NewHistory(cfg)
 	for _, o := range ops {
+		if o.Op == "ackall" { // macro: acknowledge every outstanding delivery on k, one packet per step
+			c := h.conns[o.K]
+			for n := 0; c != nil && len(c.unacked) > 0 && n < 64; n++ {
+				u := c.unacked[0]
+				kind := "puback"
+				if u.qos == 2 {
+					kind = "pubrec"
+					if u.rec {
+						kind = "pubcomp"
+					}
+				}
+				before := len(h.Events)
+				h.Step(Op{Op: kind, K: o.K, Pid: u.pid, SEI: -1, RPI: -1, RRI: -1})
+				if h.Events[before].Err != "" {
+					break
+				}
+			}
+			continue
+		}
 		h.Step(o)
 	}
 	h.Close()
